@@ -78,6 +78,11 @@ func verifLoginStep(p Plugin, content *LoginContent, content0 *LoginContent) boo
 	asked := verif.IterArg[Plugin](evHandle, 0) == p && verif.IterArg[string](evHandle, 2) == OpLogin &&
 		verif.IterArg[any](evHandle, 3) == any(*content0)
 	res := verif.IterRet[*Response](evHandle, 0)
+	// an iteration that goes on to the next plugin saw neither a failure nor a
+	// reject (those end the chain at once, whatever else the answer says)
+	if verif.IterRet[error](evHandle, 2) != nil || res.Reject {
+		return false
+	}
 	if res.Unchange {
 		return asked && content == content0
 	}
@@ -96,6 +101,11 @@ func verifNewProxyStep(p Plugin, content *NewProxyContent, content0 *NewProxyCon
 	asked := verif.IterArg[Plugin](evHandle, 0) == p && verif.IterArg[string](evHandle, 2) == OpNewProxy &&
 		verif.IterArg[any](evHandle, 3) == any(*content0)
 	res := verif.IterRet[*Response](evHandle, 0)
+	// an iteration that goes on to the next plugin saw neither a failure nor a
+	// reject (those end the chain at once, whatever else the answer says)
+	if verif.IterRet[error](evHandle, 2) != nil || res.Reject {
+		return false
+	}
 	if res.Unchange {
 		return asked && content == content0
 	}
@@ -114,6 +124,11 @@ func verifPingStep(p Plugin, content *PingContent, content0 *PingContent) bool {
 	asked := verif.IterArg[Plugin](evHandle, 0) == p && verif.IterArg[string](evHandle, 2) == OpPing &&
 		verif.IterArg[any](evHandle, 3) == any(*content0)
 	res := verif.IterRet[*Response](evHandle, 0)
+	// an iteration that goes on to the next plugin saw neither a failure nor a
+	// reject (those end the chain at once, whatever else the answer says)
+	if verif.IterRet[error](evHandle, 2) != nil || res.Reject {
+		return false
+	}
 	if res.Unchange {
 		return asked && content == content0
 	}
@@ -132,6 +147,11 @@ func verifNewWorkConnStep(p Plugin, content *NewWorkConnContent, content0 *NewWo
 	asked := verif.IterArg[Plugin](evHandle, 0) == p && verif.IterArg[string](evHandle, 2) == OpNewWorkConn &&
 		verif.IterArg[any](evHandle, 3) == any(*content0)
 	res := verif.IterRet[*Response](evHandle, 0)
+	// an iteration that goes on to the next plugin saw neither a failure nor a
+	// reject (those end the chain at once, whatever else the answer says)
+	if verif.IterRet[error](evHandle, 2) != nil || res.Reject {
+		return false
+	}
 	if res.Unchange {
 		return asked && content == content0
 	}
@@ -150,6 +170,11 @@ func verifNewUserConnStep(p Plugin, content *NewUserConnContent, content0 *NewUs
 	asked := verif.IterArg[Plugin](evHandle, 0) == p && verif.IterArg[string](evHandle, 2) == OpNewUserConn &&
 		verif.IterArg[any](evHandle, 3) == any(*content0)
 	res := verif.IterRet[*Response](evHandle, 0)
+	// an iteration that goes on to the next plugin saw neither a failure nor a
+	// reject (those end the chain at once, whatever else the answer says)
+	if verif.IterRet[error](evHandle, 2) != nil || res.Reject {
+		return false
+	}
 	if res.Unchange {
 		return asked && content == content0
 	}
